@@ -134,15 +134,13 @@ class SmtLibCommand(namedtuple('SmtLibCommand', ['name', 'args'])):
             outstream.write(")")
 
         elif self.name == smtcmd.CHECK_ALLSAT:
-            outstream.write("(%s " % self.name)
+            outstream.write("(%s (" % self.name)
             if self.args:
-                outstream.write("(")
                 for expr in self.args[:-1]:
                     printer.printer(expr)
                     outstream.write(" ")
                 printer.printer(self.args[-1])
-                outstream.write(")")
-            outstream.write(")")
+            outstream.write("))")
 
         elif self.name in [smtcmd.CHECK_SAT, smtcmd.EXIT,
                            smtcmd.RESET_ASSERTIONS, smtcmd.GET_UNSAT_CORE,
